@@ -657,7 +657,26 @@ impl Shared {
             // 10 = short form, 11 = reason code 0x92, 12 = reason code 0 with an explicit (empty) property block
             fail = 10 + self.ch.choose(K_VARIANT, 3, 0) as u8;
         }
-        let pkt = self.broker.emit(e, fail);
+        let mut form_choice = 0usize;
+        if self.explore() && self.cfg.broker.ack_forms && fail == 0 {
+            let n = self.broker.ack_form_choices(e);
+            if n > 1 {
+                form_choice = self.ch.choose(K_VARIANT, n, 0);
+            }
+        }
+        let mut pkt = self.broker.emit(e, fail);
+        if form_choice > 0 {
+            match &mut pkt {
+                SPacket::Ack { form, props, .. } => {
+                    *form = form_choice.min(2) as u8;
+                    if form_choice == 3 {
+                        *props = broker::ack_dressing();
+                    }
+                }
+                SPacket::SubAck { props, .. } | SPacket::UnsubAck { props, .. } => *props = broker::ack_dressing(),
+                _ => {}
+            }
+        }
         self.push_inbound(c, pkt);
         if self.cfg.broker.script_burst && matches!(e, Emit::Script) {
             while self.broker.enabled().iter().any(|x| matches!(x, Emit::Script)) {
